@@ -331,6 +331,25 @@ class Model:
                         nm = dict(nm, iso='%s;%d' % (base, v))
                         self.classes.add('other-version-of-a-sibling')
                         break
+        if op.get('utwin') and 'udf' in parents:
+            # a sibling's Latin-1 UDF name re-read as UCS-2: other characters, other compression id, the very same identifier bytes
+            sibs = sorted(p for p, e in self.t['udf'].items() if p != '/' and parent_of(p) == parents['udf'])
+            for k in range(len(sibs)):
+                base = sibs[(op['utwin'] + k) % len(sibs)].rsplit('/', 1)[1]
+                try:
+                    raw = base.encode('latin-1')
+                    if len(raw) % 2 or len(raw) < 4:
+                        continue
+                    cand = raw.decode('utf-16_be')
+                    cand.encode('utf-16_be', 'strict')
+                except (UnicodeError, ValueError):
+                    continue
+                if any(0xd800 <= ord(ch) <= 0xdfff for ch in cand) or '/' in cand or '\0' in cand:
+                    continue
+                if join(parents['udf'], cand) not in self.t['udf']:
+                    nm = dict(nm, udf=cand)
+                    self.classes.add('udf-name-with-a-siblings-bytes')
+                    break
         if op.get('xtwin') and 'iso' in parents:
             # a sibling's name with one more digit at the end of the extension: byte order and ECMA-119 9.3 order (extension
             # padded with spaces) disagree about which of the two comes first
